@@ -21,7 +21,7 @@ from ..numeric import exact_moments, fr, fx_req
 
 KINDS = ['point', 'line', 'tri', 'quad', 'tet', 'hex', 'wedge']
 # largest tabulated order: triangle 19, tetrahedron 9 (prism = triangle x segment: 19); + 3
-NMAX = {'point': 3, 'line': 22, 'tri': 22, 'quad': 22, 'tet': 12, 'hex': 12, 'wedge': 22}
+NMAX = {'point': 3, 'line': 22, 'tri': 22, 'quad': 22, 'tet': 12, 'hex': 16, 'wedge': 22}
 DIM = {'point': 0, 'line': 1, 'tri': 2, 'quad': 2, 'tet': 3, 'hex': 3, 'wedge': 3}
 FACTORS = {'quad': ['line', 'line'], 'hex': ['line', 'line', 'line'], 'wedge': ['tri', 'line']}
 
@@ -150,9 +150,25 @@ def model(ctx):
         ctx.model_must_hold('MC_C08', 'MC_C08.cfg', timeout=600, workers=4)
 
 
+def all_scenarios():
+    """One scenario per (kind, order); the projections are independent, so they are spread over a few processes."""
+    recs = recipes()
+    try:
+        import multiprocessing as mp
+        order = sorted(range(len(recs)), key=lambda j: -(recs[j]['n'] + 2) ** (DIM[recs[j]['kind']] + 1))
+        with mp.get_context('fork').Pool(min(8, os.cpu_count() or 1)) as pool:
+            done = pool.map(scenario, [recs[j] for j in order], chunksize=1)
+        out = [None] * len(recs)
+        for j, sc in zip(order, done):
+            out[j] = sc
+        return out
+    except (OSError, ImportError):
+        return [scenario(r) for r in recs]
+
+
 def run(ctx):
     model(ctx)
-    scs = [scenario(r) for r in recipes()]
+    scs = all_scenarios()
     ctx.validate('TraceC08', scs)
     offered = [s for s in scs if s['events'][0]['err'] == '']
     ctx.notes['distinct_nontrivial'] = sum(1 for s in offered if s['recipe']['n'] >= 1)
@@ -162,7 +178,7 @@ def run(ctx):
     ctx.notes['orders'] = {k: [-1, NMAX[k]] for k in KINDS}
     ctx.notes['tolerances'] = {'TolQuad': '2^-42 * |reference cell| + 64 * 2^-56', 'TolNode': '2^-48'}
     return ctx.finish(rule=RULE, assumptions=[
-        'orders are enumerated up to NMAX (line/tri/quad/wedge 22, tet/hex 12, point 3); segment, quadrilateral '
+        'orders are enumerated up to NMAX (line/tri/quad/wedge 22, tet 12, hex 16, point 3); segment, quadrilateral '
         'and hexahedron rules are generated for any order, larger orders are not examined',
         'prism rules are asked to integrate total degree <= n in the triangle plane times degree <= n along the axis',
         'mode L: an error below 2^-42 of the cell measure is invisible',
